@@ -151,6 +151,8 @@ def check(ctx):
     ctx.rule("R2", "the self-recursion of _parse_ctx_free is bounded: entered only when logical_input is false, and it passes logical_input=True", floor=2)
     ctx.rule("R3", "the recovery loop raises only the parser's own SyntaxError/IndentationError (no internal exception type is raised explicitly)", floor=5)
     ctx.rule("R7", "the second-phase scope question is answered from the live binding stack alone: the query methods store nothing on the transformer and read no transformer state that changes during the walk except that stack", floor=2)
+    ctx.rule("R8", "the assignment-target check, whose SyntaxError is what sends `cmd --opt=value` to the recovery loop, reaches every statement position of the tree: its visitor traverses every statement-holding field the interpreter's grammar has (body, orelse, finalbody, handlers, cases ...) and every container visitor it overrides goes on into the children", floor=2)
+    ctx.rule("R9", "sibling phases agree on window arithmetic: wherever a column taken from one physical line is used as a position in the joined logical line (get_logical_line), the lengths of the preceding physical lines are added when the logical line spans several", floor=2)
     ctx.rule("R6", "line tables indexed by the parser's line numbers are split the way the parser counts lines (\\n only)", floor=2)
     ctx.rule("R5", "every verdict of the open-triple-quote scanner comes out of its quote- and comment-aware scan (or is 'nothing open' when no marker occurs at all); the line joiners ask only the scanner", floor=4)
     ctx.rule("R4", "the line returned by tools.subproc_toks is built only from slices of the source line and the literals '![' and ']'", floor=3)
@@ -486,6 +488,116 @@ def check(ctx):
         raise AnalysisError(f"only {n_tab} line tables found on the detection path (2 confirmed by hand)")
 
     _scope_queries(ctx)
+    _context_check_reach(ctx)
+    _window_offsets(ctx)
+
+
+def _window_offsets(ctx):
+    """Phase 1 (execer) converts the parser's error column into an offset in the joined logical line (`mincol_abs`); phase 2
+    (the context-aware transformer) must do the same with a node's column.  Cross-check: every user of get_logical_line that
+    cuts the joined line at a column-derived `mincol`."""
+    n = 0
+    for rel, qual in ((EX, "Execer._parse_ctx_free._try_parse"), (AS, "CtxAwareTransformer.try_subproc_toks")):
+        m = ctx.repo.module(rel)
+        fn0 = m.func(qual)
+        fn = flat(ctx, fn0, 2, skip=("subproc_toks", "find_next_break", "get_logical_line", "replace_logical_line", "balanced_parens", "ends_with_colon_token", "_print_debug_wrapping", "_parse_ctx_free", "source_lines", "min_col", "max_col", "get_line_continuation", "_ends_with_line_continuation"))
+        defs = df.all_defs(fn)
+        if not any((call_name(c) or "").split(".")[-1] == "get_logical_line" for c in calls_in(fn)):
+            raise AnchorMissing(f"{rel}:{qual}: get_logical_line")
+        cuts = [c for c in calls_in(fn) if (call_name(c) or "").split(".")[-1] in ("subproc_toks", "find_next_break") and kwarg(c, "mincol") is not None and not getattr(stmt_of(c), "_xv_call_marker", False)]
+        if not cuts:
+            raise AnchorMissing(f"{rel}:{qual}: a cut of the joined line at `mincol=`")
+
+        def contributes(e, seen):
+            """names and expressions the value of e is computed from"""
+            out = [e]
+            for x in ast.walk(e):
+                if isinstance(x, ast.Name) and x.id not in seen:
+                    seen.add(x.id)
+                    for d in defs.get(x.id, []):
+                        if d.value is not None:
+                            out += contributes(d.value, seen)
+                        if d.kind == "for" and getattr(d.stmt, "iter", None) is not None:
+                            out += contributes(d.stmt.iter, seen)
+            return out
+
+        seen_keys = set()
+        for c in cuts:
+            mc = kwarg(c, "mincol")
+            parts = contributes(mc, set())
+            # the offset of a later physical line: a sum over lengths of a slice of the line table
+            shifted = any(isinstance(x, ast.Call) and call_name(x) == "sum" and "len(" in unparse(x) for p_ in parts for x in ast.walk(p_))
+            # ... or accumulated in a loop over a slice of the line table (`off += len(ln) - 1`)
+            for nm_ in {x.id for p_ in parts for x in ast.walk(p_) if isinstance(x, ast.Name)}:
+                for d in defs.get(nm_, []):
+                    if d.kind == "aug" and d.value is not None and "len(" in unparse(d.value) and any(isinstance(a_, ast.For) and isinstance(a_.iter, ast.Subscript) and isinstance(a_.iter.slice, ast.Slice) for a_ in ancestors(d.stmt)):
+                        shifted = True
+            from_col = any(isinstance(x, ast.Call) and (call_name(x) or "").split(".")[-1] in ("min_col", "max_col") for p_ in parts for x in ast.walk(p_)) or any(isinstance(x, ast.Attribute) and x.attr in ("column", "col_offset") for p_ in parts for x in ast.walk(p_))
+            if not from_col:
+                continue
+            k = f"{qual.split('.')[-1]}|window-from-physical-column|{call_name(c).split('.')[-1]}"
+            if k in seen_keys:
+                continue
+            seen_keys.add(k)
+            n += 1
+            ctx.ob("R9", f"{rel}:{qual}", f"`{short(c, 60)}`: the column-derived `mincol` is shifted by the lengths of the preceding physical lines of a multi-line logical line", shifted, key=k, where=loc(c), detail=None if shifted else f"`mincol` = `{short(mc, 40)}` comes from a column in the node's own physical line; the text it cuts is the joined logical line")
+    if n < 2:
+        raise AnalysisError(f"only {n} column-derived cuts of joined logical lines found")
+
+
+def _context_check_reach(ctx):
+    from ..engine import asdl as _asdl
+    from ..engine.fold import Folder, NotConstant
+
+    rel = "xonsh/parsers/context_check.py"
+    cm = ctx.repo.module(rel)
+    cls = cm.cls("ContextCheckingVisitor")
+    ms = class_methods(cls)
+    # statement-holding fields of the running interpreter's grammar: fields whose elements are statements, handlers or cases
+    need = set()
+    holders = {}
+    for kind in dir(ast):
+        k = getattr(ast, kind)
+        if not (isinstance(k, type) and issubclass(k, ast.AST)) or not getattr(k, "_fields", None):
+            continue
+        doc = k.__doc__ or ""
+        for fld in k._fields:
+            if any(f"{t}* {fld}" in doc for t in ("stmt", "excepthandler", "match_case")):
+                need.add(fld)
+                holders.setdefault(kind, set()).add(fld)
+    if not {"body", "orelse", "finalbody", "handlers"} <= need:
+        raise AnalysisError(f"statement-holding fields not derived from the interpreter's grammar ({sorted(need)})")
+    st = f"{rel}:ContextCheckingVisitor"
+    gv = ms.get("generic_visit")
+    if gv is None:
+        ctx.ob("R8", st, f"inherits ast.NodeVisitor.generic_visit: every child of every node is visited ({len(need)} statement-holding fields: {sorted(need)})", True, key="context-check|traversal")
+    else:
+        generic = any((call_name(c) or "") in ("ast.iter_child_nodes", "iter_child_nodes", "ast.iter_fields", "iter_fields", "super().generic_visit", "ast.walk") for c in calls_in(gv))
+        names = set()
+        folder = Folder(cm)
+        for n in ast.walk(gv):
+            if isinstance(n, (ast.For, ast.comprehension)):
+                it = n.iter
+                try:
+                    v = folder.fold(it, {}) if not (isinstance(it, ast.Attribute) and unparse(it.value) in ("self", "cls", cls.name)) else folder.fold(next(a.value for a in cls.body if isinstance(a, ast.Assign) and any(isinstance(t, ast.Name) and t.id == it.attr for t in a.targets)), {})
+                    if isinstance(v, (tuple, list, set, frozenset)) and all(isinstance(x, str) for x in v):
+                        names |= set(v)
+                except (NotConstant, StopIteration, AnalysisError):
+                    pass
+        missing = sorted(need - names)
+        ok = generic or not missing
+        ctx.ob("R8", st + ".generic_visit", "the overriding traversal follows every statement-holding field of the grammar", ok, key="context-check|traversal", where=loc(gv), detail=None if ok else f"not followed: {missing} (e.g. {sorted(k for k, v in holders.items() if set(v) & set(missing))[:4]}): a bare command in such a block is not sent to the recovery loop")
+    # container statements with a visitor of their own must go on into their children
+    n_over = 0
+    for nm, f in ms.items():
+        if not nm.startswith("visit_") or nm[6:] not in holders:
+            continue
+        n_over += 1
+        cfg = CFG(f)
+        cont = [n for n in cfg.nodes if n.kind == "stmt" and any((call_name(c) or "") in ("self.generic_visit", "self.visit", "super().generic_visit") for c in calls_in(n.ast))]
+        ok = bool(cont) and cfg.must_pass(cfg.entry, lambda m: m in cont, exits=("exit",))[0]
+        ctx.ob("R8", f"{st}.{nm}", f"goes on into the children ({sorted(holders[nm[6:]])}) on every path", ok, key=f"context-check|{nm}|stops-traversal", where=loc(f))
+    ctx.ob("R8", st, f"{n_over} container visitors overridden; the check is applied to every parse result", True, key="context-check|overrides")
 
 
 _MUTATORS = {"add", "update", "discard", "remove", "append", "pop", "clear", "extend", "insert", "setdefault", "popitem", "difference_update", "intersection_update", "symmetric_difference_update", "appendleft", "popleft", "sort", "reverse", "__setitem__", "__delitem__"}
@@ -565,5 +677,5 @@ META = {
     "Whether the chosen window is right for every line is value-level and not decided.",
     "note": "Decides the listed structural clauses, not the behaviour. Companion facts for two non-trivial progress "
     "assignments are frozen in the catalogue with their reason. PLY and the tokenizer are trusted.",
-    "more": 'Also decided: the retry budget of the recovery loop grows with the length of the input (a bound on the number of segments), not with the number of lines alone; the second-phase scope queries are pure functions of the live binding stack (no memo that outlives a def/class scope).',
+    "more": 'Also decided: the retry budget of the recovery loop grows with the length of the input (a bound on the number of segments), not with the number of lines alone; the second-phase scope queries are pure functions of the live binding stack (no memo that outlives a def/class scope). The target check whose SyntaxError feeds the recovery loop traverses every statement-holding field of the interpreter\'s grammar (cases included); both phases shift a physical-line column by the preceding physical lines before cutting a joined logical line.',
 }
